@@ -97,6 +97,7 @@ impl NodeCfg {
             raw_tx: false,
             dhcp: false,
             dhcp_leased_unapplied: vec![],
+            dhcp_unmanaged: false,
         }
     }
     pub fn rx_verifies_all(&self) -> bool {
